@@ -164,10 +164,11 @@ def check_local_step(chk, rid, repo, q, charges_rid=None):
         l, r = slots(kind)
         phys_ok = all(len(ax) == 1 and ax[0].occ.kind != 'param' or True for ax in outA.axes)
         n += 0
-    if len(it.factor_calls) != 1:
-        raise AnalysisError(f'{q}: expected exactly one factorisation call, found {len(it.factor_calls)}')
+    fcalls = it.factor_calls or it.shared.get('factor_calls', [])        # a step that delegates to its sibling factorises there
+    if len(fcalls) != 1:
+        raise AnalysisError(f'{q}: expected exactly one factorisation call, found {len(fcalls)}')
     crid = charges_rid or rid
-    check_factor_charges(chk, crid, repo, it.factor_calls[0], crid)
+    check_factor_charges(chk, crid, repo, fcalls[0], crid)
     check_label(chk, crid, repo, fi, kind, outA, label, it.ret_node, crid)
     n += 3
     return n
